@@ -14,7 +14,7 @@ from ..core import Outcome
 
 PROPERTY = 'C14'
 LEVEL = 'fault_enumeration'
-TIERS = {'quick': {'runs': 320, 'wall': 85, 'min_budget': 60}, 'thorough': {'runs': 150000, 'wall': 1200, 'min_budget': 200}}
+TIERS = {'quick': {'runs': 800, 'wall': 85, 'min_budget': 60}, 'thorough': {'runs': 150000, 'wall': 1200, 'min_budget': 200}}
 RULE = ('one run = one proof module (C02 composer or shipped) executed phase by phase on a recording SerializingInterpreter (optimise off/on); the bytes of each phase are fed '
         'through deserialize_instructions into a fresh recording interpreter moved through the same phases; call sequences (methods, scalar operands, term operands modulo symbol '
         'renaming) and final stack/memory/claims per phase must be equal. Faults: every truncation offset of every phase stream; every overwrite by an undefined byte value '
